@@ -437,19 +437,21 @@ async fn write_provision_state(
         );
     }
 
-    let status_file: PathBuf = provision_dir.join(STATUS_TAG_TMP_FILE_NAME);
-    match std::fs::write(status_file, failed_state_message.as_bytes()) {
-        Ok(_) => {
-            match std::fs::rename(
-                provision_dir.join(STATUS_TAG_TMP_FILE_NAME),
-                provision_dir.join(STATUS_TAG_FILE_NAME),
-            ) {
-                Ok(_) => {}
-                Err(e) => {
-                    logger::write_error(format!("Failed to rename status file with error: {e}"));
-                }
+    // each writer uses its own temp file: two concurrent writers sharing one temp file would keep
+    // writing into the file after the other one has already renamed it to status.tag
+    let status_file: PathBuf = provision_dir.join(format!(
+        "{}.{}.{}",
+        STATUS_TAG_TMP_FILE_NAME,
+        misc_helpers::get_thread_identity(),
+        misc_helpers::get_date_time_unix_nano()
+    ));
+    match std::fs::write(&status_file, failed_state_message.as_bytes()) {
+        Ok(_) => match std::fs::rename(&status_file, provision_dir.join(STATUS_TAG_FILE_NAME)) {
+            Ok(_) => {}
+            Err(e) => {
+                logger::write_error(format!("Failed to rename status file with error: {e}"));
             }
-        }
+        },
         Err(e) => {
             logger::write_error(format!("Failed to write temp status file with error: {e}"));
         }
